@@ -55,7 +55,7 @@ func genC18(t *rapid.T) CaseC18 {
 	c.ErrKind = rapid.IntRange(0, 6).Draw(t, "err-kind")
 	c.ErrWithData = rapid.IntRange(0, 2).Draw(t, "err-with-data") == 0
 	c.ErrOnce = rapid.Bool().Draw(t, "err-once")
-	c.Reader = rapid.IntRange(0, 5).Draw(t, "reader")
+	c.Reader = rapid.SampledFrom([]int{0, 1, 2, 3, 4, 5, 5, 5, 6}).Draw(t, "reader") // 6 = a regular file
 	if c.Reader == 5 {
 		c.Chunks = rapid.SliceOfN(rapid.IntRange(1, 400), 1, 6).Draw(t, "chunks")
 	}
@@ -280,6 +280,21 @@ func checkC18(c CaseC18, x *hx.Ctx) (fail *hx.Failure) {
 		r = iotest.HalfReader(base)
 	case 4:
 		r = iotest.DataErrReader(base)
+	case 6:
+		// a regular file (a reader that knows its size): what most streams are read from
+		f, ferr := os.CreateTemp("", "verif-c18-*.ts")
+		if ferr != nil {
+			return hx.Failf("harness-tempfile", "cannot create a scratch file: %v", ferr)
+		}
+		defer os.Remove(f.Name())
+		defer f.Close()
+		if _, werr := f.Write(data); werr != nil {
+			return hx.Failf("harness-tempfile", "cannot write the scratch file: %v", werr)
+		}
+		if _, serr := f.Seek(0, io.SeekStart); serr != nil {
+			return hx.Failf("harness-tempfile", "cannot rewind the scratch file: %v", serr)
+		}
+		r = f
 	default:
 		r = &fragReader{data: clone(data), chunks: c.Chunks, failAfter: -1}
 	}
@@ -305,7 +320,7 @@ func checkC18(c CaseC18, x *hx.Ctx) (fail *hx.Failure) {
 		wantDelivered = c.FailAt + 1
 	}
 	if f := c18Delivered(sink, data, wantDelivered, "readfrom"); f != nil {
-		f.Msg += " (reader kind " + []string{"bytes.Reader", "bufio", "one-byte", "half", "data-with-EOF", "chunks"}[c.Reader] + ")"
+		f.Msg += " (reader kind " + []string{"bytes.Reader", "bufio", "one-byte", "half", "data-with-EOF", "chunks", "regular file"}[c.Reader] + ")"
 		return f
 	}
 	if c.Again {
@@ -375,7 +390,7 @@ func checkC18(c CaseC18, x *hx.Ctx) (fail *hx.Failure) {
 var propC18 = hx.Register(hx.Prop[CaseC18]{ID: "C18", Gen: genC18, Check: checkC18})
 
 func c18Rule() {
-	hx.Rec("C18").SetRule("cases: 0..12 packets of deterministic contents (+ 0..187 extra bytes), a packet-writer mock that records a copy of every packet and fails at a drawn index with a drawn count, the four adapter constructions plus two over a packet writer whose type also has its own Write method, and for ReadFrom the same contents through bytes.Reader, bufio.Reader, one-byte reader, half reader, data-with-EOF reader, drawn chunk sizes 1..400, and a reader that fails after k bytes with a plain, timeout-like, os.ErrDeadlineExceeded, io.ErrNoProgress or EOF-wrapping error reported with or after the last bytes, once or for good (followed by a second ReadFrom on the same adapter); ReadFrom driven directly or through io.Copy. Oracle: the sequence of packets seen by the mock, returned count and error, per the statement. Enumerated: every (packet count 0..6, partial tail in {0,1,94,187}, reader kind, failing position) combination. Non-trivial: a fragmenting reader (not one packet per Read) or a failure position strictly inside the sequence.",
+	hx.Rec("C18").SetRule("cases: 0..12 packets of deterministic contents (+ 0..187 extra bytes), a packet-writer mock that records a copy of every packet and fails at a drawn index with a drawn count, the four adapter constructions plus two over a packet writer whose type also has its own Write method, and for ReadFrom the same contents through bytes.Reader, bufio.Reader, one-byte reader, half reader, data-with-EOF reader, a regular file, drawn chunk sizes 1..400, and a reader that fails after k bytes with a plain, timeout-like, os.ErrDeadlineExceeded, io.ErrNoProgress or EOF-wrapping error reported with or after the last bytes, once or for good (followed by a second ReadFrom on the same adapter); ReadFrom driven directly or through io.Copy. Oracle: the sequence of packets seen by the mock, returned count and error, per the statement. Enumerated: every (packet count 0..6, partial tail in {0,1,94,187}, reader kind, failing position) combination. Non-trivial: a fragmenting reader (not one packet per Read) or a failure position strictly inside the sequence.",
 		"the packet-writer mock returns 188 on success (the io.Writer-style contract the adapter documents)")
 }
 
